@@ -61,7 +61,7 @@ def bounds(tier):
 def cases(tier, inst):
     # (a) type filter, however the variable was declared
     for cls in ("Base", "Sub", "USub", "Hand", "Item", "Part", "Rev"):
-        for style in ("from", "let", "sharedfrom"):
+        for style in ("from", "let", "sharedfrom", "letn"):          # letn: let(T, d, name=...)
             for cond in (False, True):
                 yield ("type", cls, style, cond)
     # (b) field constraints by keyword: every subset of fields x value combinations
@@ -98,7 +98,7 @@ def cases(tier, inst):
     for n in range(0, (3 if tier == "thorough" else 2) + 1):
         for dom in itertools.product(range(len(MEMBER_KINDS)), repeat=n):
             for cls in ("Base", "Sub", "USub", "Hand"):
-                for style in ("from", "let"):
+                for style in ("from", "let", "letn"):
                     yield ("tinytype", dom, cls, style, False)
                 yield ("tinytype", dom, cls, "from", True)
     # (g) the domain is ONE object, not a collection ("a value or a set of values"): same type filter
